@@ -389,10 +389,38 @@ def build_obstacle(d):
     raise tlc.MachineryError("unknown obstacle kind %r" % (kind,))
 
 
-def build_window_scenario(descs):
+LIGHT_IDS = (301, 302)                           # light 301+k stands in cell column k of row -2 and is referenced by lanelet 101+k
+
+
+def build_light(lid, desc, k):
+    """Light descriptor {cyc: [{d, c}], off, active} -> TrafficLight standing in cell (row -2, column k)."""
+    import numpy as np
+    from commonroad.scenario.traffic_light import (TrafficLight, TrafficLightCycle, TrafficLightCycleElement,
+                                                   TrafficLightState)
+    els = [TrafficLightCycleElement(TrafficLightState(x["c"]), x["d"]) for x in desc["cyc"]]
+    return TrafficLight(lid, np.array([CELL * k + 5.0, -15.0]), TrafficLightCycle(els, time_offset=desc["off"]),
+                        active=bool(desc["active"]))
+
+
+def build_window_scenario(descs, lights=()):
+    """Lanelets 101 -> 102 -> 103 (successors), one per cell of row -1; light k is referenced by lanelet 101+k and so
+    governs the centre-line colour of lanelet 102+k; the obstacles of the descriptors."""
     from crv import gamma as G
     sc = G.scenario()
-    sc.add_objects(G.network([G.lanelet(lid, CELL * k + 2.0, -6.5, 6.0, 3.0) for k, lid in enumerate(LANELETS)]))
+    las = []
+    for k, lid in enumerate(LANELETS):
+        kw = {}
+        if k + 1 < len(LANELETS):
+            kw["successor"] = [LANELETS[k + 1]]
+        if k > 0:
+            kw["predecessor"] = [LANELETS[k - 1]]
+        if k < len(lights):
+            kw["traffic_lights"] = {LIGHT_IDS[k]}
+        las.append(G.lanelet(lid, CELL * k + 2.0, -6.5, 6.0, 3.0, **kw))
+    net = G.network(las)
+    for k, desc in enumerate(lights):
+        net.add_traffic_light(build_light(LIGHT_IDS[k], desc, k), {LANELETS[k]})
+    sc.add_objects(net)
     for d in descs:
         sc.add_objects(build_obstacle(d))
     return sc
@@ -426,23 +454,77 @@ def observe_patches(renderer):
 
 
 def observe_lanelets(renderer):
-    """Lanelet ids whose paths/polygons sit in a collection of renderer.static_collections; stray = paths elsewhere."""
+    """(lanelet ids with any path, parts [[id, part], ...], stray) from the collections of renderer.static_collections.
+    part: "fill" (polygon of a PolyCollection), "right" / "left" / "center" (horizontal paths at the lanelet's bounds and
+    centre line), "arrow" (anything else inside the lanelet's cell: the start-and-direction marker)."""
     import math
     import matplotlib.collections as mc
-    ids, stray = set(), 0
+    ids, parts, stray = set(), set(), 0
     for col in renderer.static_collections:
         if not isinstance(col, (mc.PolyCollection, mc.PathCollection, mc.PatchCollection, mc.LineCollection)):
             continue
         for path in col.get_paths():
-            if len(path.vertices) == 0:
+            v = path.vertices
+            if len(v) == 0:
                 continue
-            cx, cy = _bbox_centre(path.vertices)
+            cx, cy = _bbox_centre(v)
             row, k = int(math.floor(cy / CELL)), int(math.floor(cx / CELL))
             if row == -1 and 0 <= k < len(LANELETS):
                 ids.add(LANELETS[k])
+                flat = float(v[:, 1].max() - v[:, 1].min()) < 1e-9
+                if isinstance(col, mc.PolyCollection):
+                    part = "fill"
+                elif flat and abs(cy + 6.5) < 1e-9:
+                    part = "right"
+                elif flat and abs(cy + 3.5) < 1e-9:
+                    part = "left"
+                elif flat and abs(cy + 5.0) < 1e-9:
+                    part = "center"
+                else:
+                    part = "arrow"
+                parts.add((LANELETS[k], part))
             else:
                 stray += 1
-    return sorted(ids), stray
+    return sorted(ids), [list(x) for x in sorted(parts)], stray
+
+
+_LIGHT_IMAGES = None
+
+
+def observe_lights(artists):
+    """[[light id, colour token], ...]: the stock image shown by the artist of each light, after render.
+    The light is identified by the cell of the artist's anchor, the colour by comparing the image data with the
+    images commonroad ships (traffic_light_state_<token>.png)."""
+    global _LIGHT_IMAGES
+    import math
+    import numpy as np
+    from matplotlib.offsetbox import AnnotationBbox, OffsetImage
+    if _LIGHT_IMAGES is None:
+        import os
+        from PIL import Image
+        from commonroad.visualization.traffic_sign import traffic_sign_path
+        _LIGHT_IMAGES = {}
+        for fn in sorted(os.listdir(traffic_sign_path)):
+            if fn.startswith("traffic_light_state_") and fn.endswith(".png"):
+                _LIGHT_IMAGES[fn[len("traffic_light_state_"):-4]] = np.asarray(Image.open(os.path.join(traffic_sign_path, fn)))
+
+    def images(box):
+        if isinstance(box, OffsetImage):
+            yield box
+        for c in box.get_children():
+            if c is not box:
+                yield from images(c)
+    shown = []
+    for a in artists:
+        if not isinstance(a, AnnotationBbox):
+            continue
+        row, k = int(math.floor(a.xy[1] / CELL)), int(math.floor(a.xy[0] / CELL))
+        lid = LIGHT_IDS[k] if row == -2 and 0 <= k < len(LIGHT_IDS) else 0
+        for im in images(a.offsetbox):
+            data = np.asarray(im.get_data())
+            tok = [t for t, ref in _LIGHT_IMAGES.items() if ref.shape == data.shape and np.array_equal(ref, data)]
+            shown.append([lid, tok[0] if tok else "<unknown-image>"])
+    return sorted(shown)
 
 
 def model_occupancies(sc):
@@ -519,7 +601,7 @@ def _exc(ex):
     return "exc:" + type(ex).__name__
 
 
-def draw_and_render(figs, params, drawables, observe=None):
+def draw_and_render(figs, params, drawables, observe=None, observe_after=None):
     """draw every drawable, call observe(renderer) between draw and render, render + rasterise.  Returns (draw result,
     render result, observation)."""
     from commonroad.visualization.mp_renderer import MPRenderer
@@ -535,11 +617,13 @@ def draw_and_render(figs, params, drawables, observe=None):
     if observe is not None:
         obs = observe(r)
     try:
-        r.render()
+        artists = r.render()
         fig.canvas.draw()
     except Exception as ex:
         figs.drop()
         return "ok", _exc(ex), obs
+    if observe_after is not None:
+        obs = (obs, observe_after(artists))
     return "ok", "ok", obs
 
 
@@ -575,16 +659,51 @@ def _exec_window(case):
             dres, rres, obs = draw_and_render(figs, p, [sc], lambda r: (observe_patches(r), observe_lanelets(r)))
             ev.append({"op": "draw", "part": "window", "res": dres, "sig": "draw/" + tag})
             if obs is not None:
-                (cells, stray), (lids, lstray) = obs
+                (cells, stray), (lids, parts, lstray) = obs
                 ev.append({"op": "drawn", "obs": descs, "b": b, "e": e, "occ": occ, "drawn": cells, "stray": stray,
                            "sig": "drawn/" + tag})
                 ev.append({"op": "lanelets", "net": list(LANELETS), "filter": 0 if ids is None else 1,
-                           "ids": list(ids or []), "lanelets": lids, "stray": lstray, "sig": "lanelets/" + fname})
+                           "ids": list(ids or []), "lanelets": lids, "parts": parts, "defaults": 1, "stray": lstray,
+                           "sig": "lanelets/" + fname})
             ev.append({"op": "render", "res": rres, "sig": "render/" + tag})
     finally:
         figs.done()
     return ev
 
+
+
+
+def _exec_lights(case):
+    """Network with lights (cycles with inactive / red-yellow phases, offsets, switched-off lights) at one time_begin:
+    every lanelet must yield all its parts, every light's artist shows the state at time_begin."""
+    lights, t = case["lights"], case["t"]
+    figs, ev = _Fig(), []
+    try:
+        for fname in case["filters"]:
+            sc = build_window_scenario([], lights)
+            net = sc.lanelet_network
+            # the model's own answers, only used as a label: is a lanelet governed by a light in an inactive phase?
+            gov = [net.find_traffic_light_by_id(LIGHT_IDS[k]).get_state_at_time_step(t).value for k in range(len(lights))]
+            tag = "lights-" + ("some-inactive-phase" if "inactive" in gov else "all-coloured")
+            p = _params_window(t, t + 1, ("attr", "ctor", "item")[t % 3])
+            ids = FILTERS[fname]
+            if ids is not None:
+                p.lanelet_network.draw_ids = list(ids)
+            dres, rres, obs = draw_and_render(figs, p, [sc], observe_lanelets, observe_lights)
+            ev.append({"op": "draw", "part": "lights", "res": dres, "sig": "draw/" + tag})
+            if obs is not None:
+                lobs, shown = obs if rres == "ok" else (obs, None)
+                lids, parts, lstray = lobs
+                ev.append({"op": "lanelets", "net": list(LANELETS), "filter": 0 if ids is None else 1,
+                           "ids": list(ids or []), "lanelets": lids, "parts": parts, "defaults": 1, "stray": lstray,
+                           "sig": "lanelets/" + tag})
+                if shown is not None:
+                    ev.append({"op": "lights", "t": t, "lights": [dict(d, id=LIGHT_IDS[k]) for k, d in enumerate(lights)],
+                               "shown": shown, "sig": "lights/" + ("active" if lights[0]["active"] else "switched-off")})
+            ev.append({"op": "render", "res": rres, "sig": "render/" + tag})
+    finally:
+        figs.done()
+    return ev
 
 
 # =====================================================================================================================
@@ -751,6 +870,22 @@ def build_archetype(name):
         pps = PlanningProblemSet([PlanningProblem(11 + i, G.init_state(1 + 2 * i, 1.5), g) for i, g in enumerate(gs)])
     elif name == "signs-lights":
         sc.add_objects(G.static_obstacle(1, 5, 1.5, R))
+    elif name in ("lights-inactive", "light-no-cycle"):
+        from commonroad.scenario.traffic_light import (TrafficLight, TrafficLightCycle, TrafficLightCycleElement,
+                                                       TrafficLightState)
+        net = sc.lanelet_network
+        cyc = lambda *els, off=0: TrafficLightCycle([TrafficLightCycleElement(TrafficLightState(c), d) for c, d in els],
+                                                    time_offset=off)
+        if name == "lights-inactive":         # inactive and red-yellow phases, an offset, a switched-off light
+            lights = {101: TrafficLight(301, arr(19, -1), cyc(("green", 2), ("red", 2)), active=False),
+                      102: TrafficLight(302, arr(39, -1), cyc(("inactive", 3), ("yellow", 1))),
+                      103: TrafficLight(303, arr(19, 7), cyc(("red", 1), ("redYellow", 1), ("green", 1), ("inactive", 2),
+                                                             off=2))}
+        else:                                 # a light built with its default arguments (no cycle), referenced by a lanelet
+            lights = {101: TrafficLight(301, arr(19, -1))}
+        for lid, tl in lights.items():
+            net.add_traffic_light(tl, {lid})
+        sc.add_objects(G.static_obstacle(1, 5, 1.5, R))
     else:
         raise tlc.MachineryError("unknown archetype %r" % (name,))
     return sc, pps
@@ -905,6 +1040,7 @@ def model_check(ctx):
     ctx.mc("MC_Render", "MC_Render_rep.cfg", coverage=False, timeout=1800)
     ctx.mc_expect("MC_Render", "DEV_Render_1.cfg", "PropContract")
     ctx.mc("MC_Render", "MC_Render_win.cfg", coverage=True)
+    ctx.mc("MC_Render", "MC_Render_lights.cfg", coverage=False)
 
 
 def pairwise_rows(rng, factors, candidates=12):
@@ -976,6 +1112,16 @@ def cases(ctx):
                                  "descriptor_x_window": len(win),
                                  "with_a_shape_that_must_be_drawn": sum(1 for c in win if c["must"] > 0),
                                  "with_an_EITHER_band_shape (t = time_end)": sum(1 for c in win if c["band"] > 0)}
+    # (2b) lights: every light configuration x every time_begin (TLC); a second light with another configuration
+    lit = sorted(ctx.gen("MC_Render", "GEN_Render_lights.cfg"), key=lambda c: json.dumps(c, sort_keys=True))
+    for i, c in enumerate(lit):
+        other = lit[(i * 7 + 13) % len(lit)]["light"]
+        cs.append({"part": "lights", "lights": [c["light"], other], "t": c["t"],
+                   "filters": ["none"] if i % 4 else ["none", "two"]})
+    ctx.extra["light_cases"] = {"light_configurations_x_time_begin": len(lit),
+                                "with_an_inactive_phase_in_the_cycle": sum(
+                                    1 for c in lit if any(x["c"] == "inactive" for x in c["light"]["cyc"])),
+                                "switched_off": sum(1 for c in lit if not c["light"]["active"])}
     # (3) totality: archetype x window from the spec, flag rows from here
     tot = ctx.gen("MC_Render", "GEN_Render_total.cfg")
     wins = {}
@@ -1029,6 +1175,8 @@ def execute(case):
         return {"ev": _exec_replace(case)}
     if part == "window":
         return {"ev": _exec_window(case)}
+    if part == "lights":
+        return {"ev": _exec_lights(case)}
     if part == "total":
         return {"ev": _exec_total(case)}
     raise tlc.MachineryError("unknown case part %r" % (part,))
@@ -1037,6 +1185,8 @@ def execute(case):
 def nontrivial(case):
     if case["part"] == "tree":
         return ("tree", tuple(case["node"]))
+    if case["part"] == "lights":
+        return ("lights", json.dumps(case["lights"], sort_keys=True), case["t"])
     if case["part"] == "replace":
         return ("replace", tuple(case["node"]), case["child"])
     if case["part"] == "window":
@@ -1063,6 +1213,14 @@ def corrupt(trace, rng):
                                  "time_begin"])                   # a group elsewhere changed -> clobbered
     elif e["op"] == "drawn":
         e["drawn"].append([99, 0])                                # a shape nobody reported -> extra
+    elif e["op"] == "lights":
+        if e["shown"] and rng.random() < 0.7:
+            x = rng.choice(e["shown"])
+            x[1] = "green" if x[1] != "green" else "red"         # the artist shows another colour -> state
+        else:
+            e["shown"] = e["shown"][1:] if e["shown"] else [[999, "red"]]     # -> missing / extra
+    elif e["op"] == "lanelets" and e["parts"] and rng.random() < 0.4:
+        e["parts"] = [x for x in e["parts"] if x != e["parts"][0]]           # one part of one lanelet gone -> part-missing
     elif e["op"] == "lanelets":
         if e["lanelets"] and rng.random() < 0.5:
             e["lanelets"].pop()                                   # -> missing
